@@ -26,7 +26,7 @@ for p in props:
         na.append({"property_id": p, "reason": NOT_APPLICABLE_REASON.get(p, "no solver-based check registered for this property yet (engine support not reached in this session); not claimed by another technique")})
 manifest = {
     "version": 1,
-    "setup_cmd": "cd /verif/symgo && GOFLAGS=-mod=mod GOPROXY=off GOSUMDB=off GOTOOLCHAIN=local go build -o ../build/symgo ./cmd/symgo",
+    "setup_cmd": "cd /verif/symgo && GOFLAGS=-mod=mod GOPROXY=off GOSUMDB=off GOTOOLCHAIN=local go build -o ../build/symgo ./cmd/symgo && GOFLAGS=-mod=mod GOPROXY=off GOSUMDB=off GOTOOLCHAIN=local go build -o ../build/zzgen ./cmd/zzgen",
     "hooks": {
         "guard": "verif",
         "enable": "none needed: harnesses are injected with go/packages and go test -overlay (virtual files /repo/<pkg>/zz_verif_*.go and virtual package /repo/zzverif); nothing is written into /repo",
